@@ -99,6 +99,7 @@ type scnStep struct {
 	KGEmpty  bool       `json:"kg_empty"` // open: KG is a zero-length, non-nil slice (what []byte("") or hex.DecodeString("") give)
 	Reuse    bool       `json:"reuse"`    // cmd: send the very command value of the last step with the same command name again
 	ViaNewSession bool  `json:"via_newsession"` // open: through the version-agnostic entry point NewSession(ctx, *SessionOpts)
+	ReuseOpts bool      `json:"reuse_opts"` // open: the caller keeps ONE *V2SessionOpts for all its opens and only assigns the fields it uses (KG only when it has one)
 	KeepCtx  bool       `json:"keep_ctx"` // the step's context stays alive after the step (until the scenario ends)
 }
 
@@ -784,6 +785,7 @@ type scnState struct {
 	t      *simTransport
 	conn   *bmc.V2SessionlessTransport
 	sess   *bmc.V2Session
+	opts   *bmc.V2SessionOpts // the caller's options value, kept across opens that say reuse_opts
 	bridge *udpBridge
 	last   map[string]builtCmd // the command value last sent under each command name (for "reuse")
 	kept   []context.CancelFunc
@@ -942,6 +944,19 @@ func runStepM(st *scnState, step *scnStep, withMetrics bool) (res stepResult) {
 			}
 			if step.KGEmpty {
 				opts.KG = []byte{}
+			}
+			if step.ReuseOpts {
+				if st.opts != nil {
+					// the same options value as last time; the caller assigns what it uses and leaves the rest as IT left it
+					o := st.opts
+					o.Username, o.Password, o.MaxPrivilegeLevel = opts.Username, opts.Password, opts.MaxPrivilegeLevel
+					o.PrivilegeLevelLookup, o.CipherSuites = opts.PrivilegeLevelLookup, opts.CipherSuites
+					if step.KG != "" {
+						o.KG = opts.KG
+					}
+					opts = o
+				}
+				st.opts = opts
 			}
 			var sess *bmc.V2Session
 			var err error
